@@ -35,13 +35,17 @@ import types
 
 from runner import enc, Infra
 
-RULE = ('append/kill: configurations {gzip, plain} x 0..3 earlier records x record bodies of several sizes '
-        '(empty .. several buffer lengths, so the append is 1..n raw writes) x EVERY primitive index of the '
-        'fault-free run x {OSError, kill} x partial-write amounts {0, 1, half, all-1, all}; every single-fault run is '
-        'extended by a second fault at every later primitive (exhaustive in thorough, sampled in quick); plus '
-        'OSError from the record source. startup: prefixes (plain, with glob metacharacters, with directory) x '
-        'journal present/absent x unrelated files. non-trivial = at least one fault or kill is scheduled; '
-        'distinct by (configuration, body size, schedule)')
+RULE = ('append/kill: configurations {gzip, plain} x buffer {the real default, 64 bytes} x earlier state {archive absent, '
+        'empty, 1, 2, 3 records} x record bodies (0 .. 20000 bytes, so the append is 1..n raw writes) x EVERY primitive '
+        'index of the fault-free run x {OSError, kill} x partial-write amounts {0, 1, half, all-1, all}; OSError from the '
+        'record source at 4 positions; every single-fault run is extended by a second fault/kill at every later primitive '
+        '(thorough: all of them for bodies <= 200 bytes with no / 2 earlier records, 800 sampled per other configuration; '
+        'quick: 100 sampled per small configuration) and a sample of third faults. Single kills are real child processes '
+        '(os._exit at the primitive); in quick the kills of multi-fault schedules are simulated in-process and the '
+        'simulation is compared with the real kill on every single-kill case. startup: prefixes (plain, glob '
+        'metacharacters, empty, non-ASCII) x journal present/absent x unrelated and near-miss names. '
+        'non-trivial = at least one fault or kill is scheduled (startup: at least one file); '
+        'distinct by (stream, kill mode, configuration, body, schedule)')
 TRUSTED = ['the raw file layer: io.FileIO/BufferedWriter/TextIOWrapper/gzip.GzipFile of the running Python are the '
            'REAL ones; only FileIO is subclassed to count/inject at the system-call boundary',
            'the gzip / buffering layer is a parameter of the model: the list of raw writes it emits (and re-emits '
@@ -72,6 +76,7 @@ class Injector:
         self.die_hook = die_hook
         self.src_fail = src_fail
         self.dead = False       # simulated kill: every later primitive is suppressed
+        self.after_unlink = False
 
     def role(self, path):
         path = os.fspath(path)
@@ -214,7 +219,7 @@ class _PathProxy:
         role = inj.role(path)
         if inj.dead:
             raise Die()
-        if role is None or not inj.active:
+        if role is None or not inj.active or inj.after_unlink:
             return os.path.getsize(path)
         i, act = inj.step('getsize', role)
         if act:
@@ -247,7 +252,7 @@ class _OsProxy:
                 inj.outcome(i, 'die')
                 inj.die()
             inj.outcome(i, 'fail')
-            inj.active = False
+            inj.after_unlink = True
             raise OSError(5, 'injected unlink failure')
         try:
             return os.remove(path)
@@ -255,7 +260,7 @@ class _OsProxy:
             inj.outcome(i, 'enoent')
             raise
         finally:
-            inj.active = False      # the append is over; what follows is CDX bookkeeping
+            inj.after_unlink = True     # the getsize that follows is CDX bookkeeping (C07)
 
     unlink = remove
 
@@ -397,7 +402,7 @@ def sched_of(case):
     return {int(k): tuple(v) for k, v in (case.get('schedule') or {}).items()}
 
 
-def _run_inproc(env, record, schedule, trace_out=None):
+def _run_inproc(env, record, schedule):
     inj = Injector(env.warc, schedule)
     inj.bufsize = env.bufsize
     status = 'done'
@@ -657,7 +662,7 @@ def case_key(case):
             case.get('body_seed', 0), tuple(sorted(sched_of(case).items())), case.get('src_fail'))
 
 
-def run_cases(ctx, cases, keep_traces=False):
+def run_cases(ctx, cases):
     """Execute the cases on the real code, ask the model, compare, evaluate oracles.
     Returns the list of observed results (for schedule extension)."""
     results, lines = [], []
@@ -674,6 +679,14 @@ def run_cases(ctx, cases, keep_traces=False):
         nfault = len(sch) + (1 if case.get('src_fail') is not None else 0)
         tags = ['%s:%s' % (case['stream'], r['status']), 'faults=%d' % nfault,
                 'gzip' if case['compress'] else 'plain', 'prior=%s' % case.get('prior')]
+        for mark, tag in (('junlink:', 'path:journal-creation-failed'), (':enoent', 'path:rollback-on-absent-archive'),
+                          ('rtrunc=', 'path:rollback'), ('jwrite=', None)):
+            if tag and mark in r['text']:
+                tags.append(tag)
+        if r['text'].count('jwrite=') == 2:
+            tags.append('path:journal-write-retried')
+        if case.get('kill_mode') == 'sim' and case['stream'] == 'kill':
+            tags.append('kill:simulated')
         ctx.case(case_key(case), nontrivial=nfault > 0, tags=tags)
         if real != rep:
             ctx.disagree(case['stream'], public_case(case), rep[:600], real[:600])
@@ -874,7 +887,7 @@ def run(ctx):
         for (compress, bufsize, prior, body_len) in configs(thorough):
             small = body_len <= 1500
             if thorough:
-                doubles = 'all' if small else 300
+                doubles = 'all' if (body_len <= 200 and prior in (None, 2)) else 800
             else:
                 doubles = ctx.scale(100, 100) if small else 0
             sweep(ctx, compress, bufsize, prior, body_len, rng.randrange(1000), doubles, rng,
@@ -884,7 +897,8 @@ def run(ctx):
         ctx.sample({'stream': 'kill', 'example': base_case('kill', False, None, 3, 9000, 0, {6: ('die', 100)})})
         ctx.note('fault_positions', 'every raw primitive of the fault-free run of every configuration gets OSError and a '
                  'kill (writes: 5 partial amounts); second faults at every later primitive: %s'
-                 % ('exhaustive for bodies <= 1500 bytes' if thorough else 'sampled'))
+                 % ('exhaustive for bodies <= 200 bytes with no / 2 earlier records, 800 per other configuration; all kills real'
+                    if thorough else 'sampled (100 per configuration), kills of multi-fault schedules simulated in-process'))
         ctx.exhaustive = False
     finally:
         close_envs()
